@@ -285,6 +285,42 @@ def _worker(a):
             a["merges"] = [[y, y, x, x, y, "R0", y, x, x, x, x, x, x, x]]
         else:
             a["merges"] = [[y, y, x, x, y, y, "R0", x, x, x, x, x, x, x]]
+    if a.get("directed") == "retry-barrier":
+        # Y is told AGAIN by chal.svc and asks it a second time; X waits on chal.svc as well; a reload removes chal.svc; the answer to
+        # Y's second query arrives before the answer to X.  X alone sees the same reload at the same place of its script.
+        y, x = ids[0], ids[1]
+        ids = [y, x]
+        scripts = {
+            y: [{"a": "announce", "ip": "192.0.2.1", "port": 1024}, {"a": "password", "text": "+x acct1 pw"}, {"a": "reply", "svc": "chal.svc", "text": "AGAIN wrong password"},
+                {"a": "password", "text": "+x acct1 pw2"}, {"a": "reply", "svc": "chal.svc", "text": rng.choice(["OK acct1", "AGAIN no", "OK"])},
+                {"a": rng.choice(["disconnect", "registered", "hurry"])}],
+            x: [{"a": "announce", "ip": "192.0.2.2", "port": 1025}, {"a": "password", "text": "+x acct2 pw"},
+                {"a": "reply", "svc": "chal.svc", "text": rng.choice(["OK acct2", "NO refused", "MORE prove it"])},
+                {"a": "host", "name": "h.example"}, {"a": "ident", "name": "id"}, {"a": "nick", "name": "nn"}, {"a": "userinfo", "user": "u", "real": "r"},
+                {"a": "reply", "svc": "keep.svc", "text": "OK"}, {"a": "hurry"}],
+        }
+        tables = [[("keep.svc", "dronecheck")]]
+        a["merges"] = [rng.choice([[y, y, y, y, x, x, "R0", y, x, y, x, x, x, x, x, x],
+                                   [y, x, x, y, y, y, "R0", y, y, x, x, x, x, x, x, x],
+                                   [x, x, y, y, y, y, "R0", y, x, x, x, x, x, x, y, x]])]
+    if a.get("directed") == "validated-then-stale":
+        # X's first holder gets a non-final answer, the id comes back and asks again, and the late answer to the FIRST holder follows
+        # with nothing else from that service in between when X is alone; interleaved, other clients' answers come in between
+        x, y, z = ids[0], ids[1], ids[2]
+        ids = [x, y, z]
+        sv0 = cfg.services[0][0]
+        others = [{"a": "password", "text": "+x other pw"}, {"a": "reply", "svc": sv0, "text": "AGAIN once more"}, {"a": "password", "text": "+x other pw2"},
+                  {"a": "reply", "svc": sv0, "text": "OK other"}, {"a": "hurry"}, {"a": "disconnect"}]
+        scripts = {
+            x: [{"a": "announce", "ip": "192.0.2.1", "port": 1024}, {"a": "password", "text": "+x alice pw1"},
+                {"a": "reply", "svc": sv0, "text": rng.choice(["AGAIN wrong password", "MORE prove it"])},
+                {"a": "reannounce"}, {"a": "password", "text": "+x bob pw2"},
+                {"a": "stale", "svc": sv0, "text": rng.choice(["OK alice", "NO bad password", "MORE prove it", "AGAIN retry"])},
+                {"a": "host", "name": "h.example"}, {"a": "ident", "name": "id"}, {"a": "nick", "name": "nn"}, {"a": "userinfo", "user": "u", "real": "r"},
+                {"a": "reply", "svc": sv0, "text": "OK bob"}, {"a": "hurry"}, {"a": "registered"}],
+            y: [{"a": "announce", "ip": "192.0.2.2", "port": 1025}] + others,
+            z: [{"a": "announce", "ip": "192.0.2.3", "port": 1026}] + others,
+        }
     run_merge.tables = tables
     res = {"viol": [], "stats": {"script_sets": 1, "merges_run": 0, "distinct_interleavings": 0, "client_conversations_compared": 0,
                                  "audits": 0, "steps": 0, "conversation_lines": 0}, "inconc": [], "hash": vcommon.h([cfgj, seed]), "hashes": []}
@@ -459,6 +495,14 @@ def run(chk, tier, scale=1.0):
         rng = random.Random("c07l/%d/%d" % (chk.seed, i))
         cfg = proto.Config([("chal.svc", rng.choice(["login", "login-ipr"])), ("keep.svc", "dronecheck")], timeout=3600)
         jobs.append(dict(build=b, config=cfg.to_json(), seed=rng.randrange(1 << 30), nclients=2, length=9, nmerges=1, directed="leaver-barrier"))
+    for i in range(6 if tier == "quick" else 60):
+        rng = random.Random("c07r/%d/%d" % (chk.seed, i))
+        cfg = proto.Config([("chal.svc", rng.choice(["login", "login-ipr", "combined"])), ("keep.svc", "dronecheck")], timeout=3600)
+        jobs.append(dict(build=b, config=cfg.to_json(), seed=rng.randrange(1 << 30), nclients=2, length=9, nmerges=1, directed="retry-barrier"))
+    for i in range(4 if tier == "quick" else 40):
+        rng = random.Random("c07v/%d/%d" % (chk.seed, i))
+        cfg = proto.Config([("login.svc", rng.choice(["login", "login-ipr", "combined"]))], timeout=3600)
+        jobs.append(dict(build=b, config=cfg.to_json(), seed=rng.randrange(1 << 30), nclients=3, length=14, nmerges=6 if tier == "quick" else 20, directed="validated-then-stale"))
     # many announcements (serials run into two hex digits) with ids that come back while a previous holder's answer is still under way
     for i in range(6 if tier == "quick" else 60):
         rng = random.Random("c07s/%d/%d" % (chk.seed, i))
@@ -480,7 +524,7 @@ def run(chk, tier, scale=1.0):
                 "symbolically to 'what I await from service s'; each script is run alone (reference conversation) and in random / round-robin / bursty order-preserving "
                 "interleavings; the projection of the daemon's output on each client (its id, X lines carrying its id; serial renumbered) grouped by the client's own events "
                 "must equal the reference, and no line about a client may appear in another client's step; every second interleaving is also written to a fresh daemon in ONE piece "
-                "(no sync lines) and must give the same stdout; guarded table audit every 50 steps; a third of the sets has 1-2 SIGUSR1 reloads switching the service table at a fixed "
+                "(no sync lines) and must give the same stdout; guarded table audit every 50 steps; directed sets: a leaver / a client that retries after AGAIN next to a client waiting on a service that a reload removes; a holder answered AGAIN / MORE whose id comes back and receives the late answer to the first holder; a third of the sets has 1-2 SIGUSR1 reloads switching the service table at a fixed "
                 "place of every client's script (solo reference with the reloads at the same places); scripts may re-use their id while a query of the previous holder is unanswered "
                 "and then receive the late answer to the previous holder; sets of 18-30 clients drive the serials into two hex digits; "
                 "a case = one interleaving of one script set (distinct by hash); non-trivial = conversations were compared")
